@@ -339,6 +339,6 @@ func readBefore(e *Env, idx, ev int) bool {
 }
 
 func init() {
-	Register(&Family{Name: "c18.demux", Props: []string{"C18"}, New: func() any { return &DemuxParams{} }, Gen: genDemux, Exec: execDemux,
+	Register(&Family{Name: "c18.demux", ShrinkKeys: []string{"seq", "cancel_at", "stop_at"}, Props: []string{"C18"}, New: func() any { return &DemuxParams{} }, Gen: genDemux, Exec: execDemux,
 		Faulty: true, FaultKinds: []string{"demux.cancel", "demux.stop"}})
 }
